@@ -437,3 +437,108 @@ def gen_sortkeys():
 
 
 GENERATORS = GENERATORS + (('SortKeys', gen_sortkeys),)
+
+
+# ---------------------------------------------------------------------------------------------------------------------
+
+def gen_aggregate():
+    """`Lattice.join` / `Lattice.meet`: which reduction folds the extents, which closure is looked up in the mapping."""
+    tree = _src('lattices.py')
+    cfg = {}
+    for name in ('join', 'meet'):
+        m = _method(tree, 'AggregagtionMixin', name)
+        if [a.arg for a in m.args.args] != ['self', 'concepts'] or m.args.defaults or m.args.kwonlyargs:
+            raise Decline('Lattice.%s: signature changed' % name)
+        body = _nodoc(m.body)
+        if len(body) != 3:
+            raise Decline('Lattice.%s: expected three statements, got %d' % (name, len(body)))
+        if ast.unparse(body[0]) != 'extents = (c._extent for c in concepts)':
+            raise Decline('Lattice.%s: first statement changed: %s' % (name, ast.unparse(body[0])))
+        st = body[1]
+        if not (isinstance(st, ast.Assign) and len(st.targets) == 1 and isinstance(st.targets[0], ast.Name)
+                and isinstance(st.value, ast.Call) and isinstance(st.value.func, ast.Attribute)
+                and ast.unparse(st.value.func.value) == 'self._context._Objects'
+                and [ast.unparse(a) for a in st.value.args] == ['extents'] and not st.value.keywords):
+            raise Decline('Lattice.%s: second statement changed: %s' % (name, ast.unparse(st)))
+        var, reduction = st.targets[0].id, st.value.func.attr
+        ret = body[2]
+        if not (isinstance(ret, ast.Return) and isinstance(ret.value, ast.Subscript)
+                and ast.unparse(ret.value.value) == 'self._mapping'):
+            raise Decline('Lattice.%s: return changed: %s' % (name, ast.unparse(ret)))
+        key = ret.value.slice
+        if not (isinstance(key, ast.Call) and isinstance(key.func, ast.Attribute) and isinstance(key.func.value, ast.Name)
+                and key.func.value.id == var and not key.args and not key.keywords):
+            raise Decline('Lattice.%s: looked-up key changed: %s' % (name, ast.unparse(key)))
+        cfg[name] = (reduction, key.func.attr)
+    return '\n'.join([
+        '/- GENERATED by harness/extract2.py from Lattice.join / Lattice.meet in concepts/lattices.py — do not edit.',
+        '   (reduction over the extents of the arguments, closure whose result is looked up in the mapping) -/',
+        'namespace FCA.Generated', '',
+        'def lattice_join_cfg : String × String := ("%s", "%s")' % cfg['join'],
+        'def lattice_meet_cfg : String × String := ("%s", "%s")' % cfg['meet'], '', 'end FCA.Generated', ''])
+
+
+GENERATORS = GENERATORS + (('Aggregate', gen_aggregate),)
+
+
+# ---------------------------------------------------------------------------------------------------------------------
+
+def gen_minimize():
+    """`Context._minimize(extent, intent)` (behind `Concept.attributes()` / `minimal()`), statement by statement."""
+    tree = _src('contexts.py')
+    fn = _method(tree, 'MinimizeMixin', '_minimize')
+    if [a.arg for a in fn.args.args] != ['extent', 'intent']:
+        raise Decline('_minimize: signature changed')
+    body = _nodoc(fn.body)
+    if len(body) != 2 or not isinstance(body[0], ast.If) or not isinstance(body[1], ast.For):
+        raise Decline('_minimize: expected `if ...: yield; return` and a loop')
+    first = body[0]
+    if ast.unparse(first.test) != 'not extent' or first.orelse or [ast.unparse(s) for s in first.body] != ['yield intent', 'return']:
+        raise Decline('_minimize: the empty-extent case changed: %s' % ast.unparse(first))
+    loop = body[1]
+    if not isinstance(loop.target, ast.Name) or ast.unparse(loop.iter) != 'intent.powerset()' or loop.orelse:
+        raise Decline('_minimize: loop header changed: for %s in %s' % (ast.unparse(loop.target), ast.unparse(loop.iter)))
+    v = loop.target.id
+    if len(loop.body) != 1 or not isinstance(loop.body[0], ast.If) or loop.body[0].orelse:
+        raise Decline('_minimize: loop body changed')
+    test = loop.body[0].test
+    if [ast.unparse(s) for s in loop.body[0].body] != ['yield %s' % v]:
+        raise Decline('_minimize: the loop yields something else: %s' % ast.unparse(loop.body[0]))
+
+    def term(node):
+        if isinstance(node, ast.Name) and node.id in ('extent', 'intent', v):
+            return node.id
+        if (isinstance(node, ast.Call) and isinstance(node.func, ast.Attribute) and node.func.attr == 'prime'
+                and not node.args and not node.keywords):
+            return '(prime %s)' % term(node.func.value)
+        raise Decline('_minimize: unsupported term %s' % ast.unparse(node))
+    if not (isinstance(test, ast.Compare) and len(test.ops) == 1 and isinstance(test.ops[0], (ast.Eq, ast.NotEq))):
+        raise Decline('_minimize: unsupported filter %s' % ast.unparse(test))
+    op = '==' if isinstance(test.ops[0], ast.Eq) else '!='
+    cond = '%s %s %s' % (term(test.left), op, term(test.comparators[0]))
+    # the two callers
+    lm = _src('lattice_members.py')
+    att = [ast.unparse(s) for s in _nodoc(_method(lm, 'Concept', 'attributes').body)]
+    mini = [ast.unparse(s) for s in _nodoc(_method(lm, 'Concept', 'minimal').body)]
+    inf = [ast.unparse(s) for s in _nodoc(_method(lm, 'Infimum', 'minimal').body)]
+    mm = [ast.unparse(s) for s in _nodoc(_method(tree, 'MinimizeMixin', '_minimal').body)]
+    want = {
+        'Concept.attributes': (att, ['minimize = self.lattice._context._minimize(self._extent, self._intent)',
+                                     'return (i.members() for i in minimize)']),
+        'Concept.minimal': (mini, ['return self.lattice._context._minimal(self._extent, self._intent).members()']),
+        'Infimum.minimal': (inf, ['if self._extent:\n    return super().minimal()', 'return self._intent.members()']),
+        'Context._minimal': (mm, ['return next(cls._minimize(extent, intent))']),
+    }
+    for k, (got, exp) in want.items():
+        if got != exp:
+            raise Decline('%s changed: %r' % (k, got))
+    return '\n'.join([
+        '/- GENERATED by harness/extract2.py from Context._minimize in concepts/contexts.py — do not edit.',
+        '   (`Concept.attributes`, `Concept.minimal`, `Infimum.minimal`, `Context._minimal` are compared with the expected text) -/',
+        'namespace FCA.Generated', '',
+        'def minimize (powerset : Nat → List Nat) (prime : Nat → Nat) (extent intent : Nat) : List Nat :=',
+        '  if extent = 0 then [intent]',
+        '  else (powerset intent).filter fun %s => %s' % (v, cond), '', 'end FCA.Generated', ''])
+
+
+GENERATORS = GENERATORS + (('Minimize', gen_minimize),)
